@@ -34,6 +34,9 @@ class Timeout(Exception):
     pass
 
 
+_CONFIRMED_HANGS = 0
+
+
 def _alarm(signum, frame):
     raise Timeout()
 
@@ -57,6 +60,24 @@ def outcome(fn, seconds=5.0):
     try:
         return ("ok", call_with_alarm(fn, seconds))
     except Timeout:
+        # a wall-clock alarm can fire on a loaded machine although the call would return: before calling it a hang the call
+        # is repeated once with ten times the allowance (only for the first few hangs of a run — a real non-termination shows
+        # up in every repetition and must not eat the run's time budget)
+        global _CONFIRMED_HANGS
+        if _CONFIRMED_HANGS < 3:
+            try:
+                return ("ok", call_with_alarm(fn, seconds * 10))
+            except Timeout:
+                _CONFIRMED_HANGS += 1
+                return ("hang", "timeout")
+            except (ReplaceError, TransformError) as e:
+                return ("failed", repr(e))
+            except ValueError as e:
+                return ("valueError", repr(e))
+            except RecursionError:
+                return ("internal", "RecursionError")
+            except Exception as e:  # noqa: BLE001
+                return ("internal", type(e).__name__ + ": " + str(e)[:200])
         return ("hang", "timeout")
     except (ReplaceError, TransformError) as e:
         return ("failed", repr(e))
@@ -361,6 +382,15 @@ class Ctx:
             "violations": viol_count,
         }
         ev["coverage"]["anchored_line_coverage"] = self.cover.report()
+        # the schema-level guards some theorems carry (deterministic / in-range / live automata, TextLoop, transitive
+        # compatibility), evaluated by the model driver on the named schemas this run used — measured, not assumed
+        try:
+            named = [i for i in self.driver.schemas if getattr(i, "name", "random") not in ("random", "marks-random")]
+            if named and self.build_ok:
+                outs = self.driver.run([{"op": "schemaHyps", "s": i.lean_id} for i in named])
+                ev["coverage"]["schema_guards"] = {i.name: o.get("ok", o) for i, o in zip(named, outs)}
+        except Exception as e:  # noqa: BLE001  (measuring only)
+            ev["coverage"]["schema_guards"] = {"error": str(e)[:200]}
         if extra:
             ev["coverage"].update(extra)
         with open(os.path.join(EVIDENCE, self.prop + ".json"), "w") as f:
